@@ -76,7 +76,9 @@ VAR_LAYERS = ['dg', 'ds', 'pg', 'ps', 'qg', 'qs', 'ds1', 'ug', 'us', 'us1', 'ug2
 # ------------------------------------------------------------------ helpers on trees
 def put(d, path, v):
     for k in path[:-1]:
-        d = d.setdefault(k, {})
+        if not isinstance(d.get(k), dict):   # (a None / scalar placeholder put there by an earlier injection)
+            d[k] = {}
+        d = d[k]
     d[path[-1]] = v
 
 
